@@ -58,7 +58,7 @@ func short(r blob.Ref) string {
 
 func main() {
 	ev.Main("C07", "exploration",
-		"generated permanodes with 1-14 set/add/del claims (multi-valued, repeated values, values and attribute NAMES needing escaping, two signers, sub-second dates, two claims inside one second, equal dates on different attributes, one pre-1970 date) and delete/undelete chains on claims and permanodes (incl. two deleters of one target), delivered out of date order; plus a round-5 family: clusters of claims inside one second whose RFC 3339 date strings (none / 1..9 fractional digits) do not sort chronologically, and histories delivered in 2-3 parts with a re-open of the index over the same rows between the parts (corpus re-loaded then extended incrementally; classic likewise), later parts deleting (un)delete claims of earlier parts, IsDeleted judged after every part; a round-6 family: several permanodes sharing one value of an indexed attribute (tag/title/camliRoot/camliImportRoot), the newest claims giving it deleted while an older one of the same permanode stands, a permanode whose only such claim is deleted, a value set, changed and set again; the attr=value lookup on the sorted rows (Index.SearchPermanodesWithAttr, every signer incl. an unknown one, every value incl. an absent one and 'any value', At = zero / at / 1 ns before every claim date, MaxResults 1-3) is judged in every world against 'a non-deleted set/add claim of that signer giving exactly that value, dated no later than At, is attached to a non-deleted permanode'; a reference claim-folding model written from doc/schema/{permanode,delete}.md is compared with: corpus built incrementally, corpus loaded from rows (AppendPermanodeAttrValues, PermanodeAttrValue, PermanodeHasAttrValue, PermanodeModtime, IsDeleted), index rows with and without corpus (AppendClaims membership, claim fields, attrFilter, and the claims folded by the harness at every T; IsDeleted; PathLookup/PathsLookup/PathsOfSignerTarget for camliPath attributes), search Describe(At) and Query (PermanodeConstraint Attr+Value, NumValue, ValueInSet, Relation child/parent, SkipHidden; all with At) at times before/between/exactly-at/after the claim dates and zero, with and without signer filter; distinct = (world, permanode, attr, time, signer, path); non-trivial = the permanode has at least 2 claims on the attribute or a deleted claim",
+		"generated permanodes with 1-14 set/add/del claims (multi-valued, repeated values, values and attribute NAMES needing escaping, two signers, sub-second dates, two claims inside one second, equal dates on different attributes, one pre-1970 date) and delete/undelete chains on claims and permanodes (incl. two deleters of one target), delivered out of date order; plus a round-5 family: clusters of claims inside one second whose RFC 3339 date strings (none / 1..9 fractional digits) do not sort chronologically, and histories delivered in 2-3 parts with a re-open of the index over the same rows between the parts (corpus re-loaded then extended incrementally; classic likewise), later parts deleting (un)delete claims of earlier parts, IsDeleted judged after every part; a round-6 family: several permanodes sharing one value of an indexed attribute (tag/title/camliRoot/camliImportRoot), the newest claims giving it deleted while an older one of the same permanode stands, a permanode whose only such claim is deleted, a value set, changed and set again; a round-7 family: ONE GPG key present as two distinct public-key blobs (same key id, other blob bytes), the owner's claims on a permanode alternating between the two camliSigner refs (set-attribute chain, add/del on a multi-valued attribute) with dates inside the span of the other claims, so that with the owner's key id as signer filter the value in force at a historical T was given through the second blob; the attr=value lookup on the sorted rows (Index.SearchPermanodesWithAttr, every signer incl. an unknown one, every value incl. an absent one and 'any value', At = zero / at / 1 ns before every claim date, MaxResults 1-3) is judged in every world against 'a non-deleted set/add claim of that signer giving exactly that value, dated no later than At, is attached to a non-deleted permanode'; a reference claim-folding model written from doc/schema/{permanode,delete}.md is compared with: corpus built incrementally, corpus loaded from rows (AppendPermanodeAttrValues, PermanodeAttrValue, PermanodeHasAttrValue, PermanodeModtime, IsDeleted), index rows with and without corpus (AppendClaims membership, claim fields, attrFilter, and the claims folded by the harness at every T; IsDeleted; PathLookup/PathsLookup/PathsOfSignerTarget for camliPath attributes), search Describe(At) and Query (PermanodeConstraint Attr+Value, NumValue, ValueInSet, Relation child/parent, SkipHidden; all with At) at times before/between/exactly-at/after the claim dates and zero, with and without signer filter; distinct = (world, permanode, attr, time, signer, path); non-trivial = the permanode has at least 2 claims on the attribute or a deleted claim",
 		run)
 }
 
@@ -85,6 +85,7 @@ func run(r *ev.Run) {
 		wid    string
 		ord    []int
 		phases []int // nil: the whole history is delivered to one index; else the delivery phase of every blob
+		via    map[blob.Ref]blob.Ref // round 7: claim -> the public-key blob it names, where that is not Signers[n-1].PubRef
 	}
 	jobs := make(chan job, 16)
 	var wg sync.WaitGroup
@@ -95,7 +96,7 @@ func run(r *ev.Run) {
 		go func() {
 			defer wg.Done()
 			for j := range jobs {
-				checkWorld(r, j.w, j.wid, j.ord, j.phases, &smu, &sampled)
+				checkWorld(r, j.w, j.wid, j.ord, j.phases, j.via, &smu, &sampled)
 			}
 		}()
 	}
@@ -143,7 +144,7 @@ func run(r *ev.Run) {
 		for f := range w.Features {
 			r.Note("world_features", f)
 		}
-		jobs <- job{w, wid, ord, nil}
+		jobs <- job{w, wid, ord, nil, nil}
 	}
 	// Round-5 family (own PRNG streams, own case ids: the worlds above stay what they were):
 	// (a) claim clusters whose date STRINGS do not sort chronologically (hw.C07Extra.LexDates);
@@ -198,7 +199,7 @@ func run(r *ev.Run) {
 		for f := range w.Features {
 			r.Note("world_features", f)
 		}
-		jobs <- job{w, wid, ord, phases}
+		jobs <- job{w, wid, ord, phases, nil}
 	}
 	// Round-6 family (own PRNG stream, own case ids): histories for the attr=value lookup on the
 	// sorted rows (hw.C07Extra.WithAttrRows): several permanodes sharing one value of an indexed
@@ -234,10 +235,54 @@ func run(r *ev.Run) {
 		for f := range w.Features {
 			r.Note("world_features", f)
 		}
-		jobs <- job{w, wid, ord, phases}
+		jobs <- job{w, wid, ord, phases, nil}
+	}
+	// Round-7 family (own PRNG stream, own case ids): ONE key, TWO public-key blobs
+	// (hw.ExtendC07TwoKeyBlobs).  "That signer's claims" are the claims made with the key, whichever
+	// of its public-key blobs a claim names as camliSigner (the signer filter of every query path is
+	// the key id; pkg/index keeps "a signer GPG ID to all its signer blobs").
+	nR7 := r.Pick(60, 400)
+	r7rng := r.Rand("c07round7")
+	for j := 0; j < nR7; j++ {
+		wo := hw.WorldOpts{TwoSigners: j%3 == 2, Label: fmt.Sprintf("c07r7w%d", j), NoFiles: true, NoEmptyValues: true,
+			Permanodes: 1 + j%3, MaxClaims: []int{2, 5, 9}[(j/3)%3], Deletes: j % 3, PlainAttrsOnly: j%2 == 1}
+		w := hw.GenWorld(r7rng, wo)
+		hw.ExtendC07(w, rand.New(rand.NewSource(r7rng.Int63())), hw.C07Extra{ExtraDeletes: j % 2, RepeatedValues: j%4 == 3})
+		via := hw.ExtendC07TwoKeyBlobs(w, rand.New(rand.NewSource(r7rng.Int63())))
+		prng := rand.New(rand.NewSource(r7rng.Int63()))
+		wid := fmt.Sprintf("r7w%d;", j)
+		var ord []int
+		switch j % 3 {
+		case 0:
+			ord = dateOrder(w, false)
+		case 1:
+			ord = dateOrder(w, true)
+		default:
+			ord = prng.Perm(len(w.Blobs))
+		}
+		if !r.Only(wid) {
+			continue
+		}
+		r.Note("delivery_modes", "round7")
+		for f := range w.Features {
+			r.Note("world_features", f)
+		}
+		// evidence: a claim naming the second key blob that is not the newest claim of its permanode
+		// (a T at which it is in force is historical: the cached present-time attributes do not answer)
+		for _, ci := range w.Claims {
+			if ref, ok := via[ci.Ref]; ok && ref != w.Signers[0].PubRef {
+				ds := w.ClaimDates(ci.PN)
+				if ci.Date.Before(ds[len(ds)-1]) {
+					r.Note("moments", "claim-via-second-key-blob-older-than-newest-claim")
+				}
+			}
+		}
+		jobs <- job{w, wid, ord, nil, via}
 	}
 	close(jobs)
 	wg.Wait()
+	r.Require("world_features", "c07-one-key-two-key-blobs")
+	r.Require("moments", "claim-via-second-key-blob-older-than-newest-claim", "claim-names-second-key-blob")
 	r.Require("world_features", "c07-withattr-newest-row-deleted", "c07-withattr-value-set-again")
 	r.Require("paths", "with-attr-corpus-live", "with-attr-corpus-loaded", "with-attr-classic", "with-attr-any-value-classic", "with-attr-maxresults-classic")
 	r.Require("withattr", "newest-claim-of-a-returned-permanode-is-deleted", "newest-claim-of-a-returned-permanode-is-dated-after-T", "newest-row-of-the-value-is-rejected/max-results",
@@ -373,7 +418,7 @@ func (c *wc) queryHits(p path, pc *search.PermanodeConstraint, sortType search.S
 	return hits, nil
 }
 
-func checkWorld(r *ev.Run, w *hw.World, wid string, ord []int, phases []int, smu *sync.Mutex, sampled *int) {
+func checkWorld(r *ev.Run, w *hw.World, wid string, ord []int, phases []int, via map[blob.Ref]blob.Ref, smu *sync.Mutex, sampled *int) {
 	ctx := context.Background()
 	var live, classic *hw.Idx
 	var err error
@@ -567,8 +612,15 @@ func checkWorld(r *ev.Run, w *hw.World, wid string, ord []int, phases []int, smu
 					if x.Permanode != pn {
 						bad = append(bad, fmt.Sprintf("Permanode=%s want %s", x.Permanode, pn))
 					}
-					if x.Signer != w.Signers[ci.Signer-1].PubRef {
-						bad = append(bad, fmt.Sprintf("Signer=%s want %s", x.Signer, w.Signers[ci.Signer-1].PubRef))
+					wantSigner := w.Signers[ci.Signer-1].PubRef
+					if ref, ok := via[x.BlobRef]; ok {
+						wantSigner = ref // the public-key blob this claim names (round 7: one key, two blobs)
+						if ref != w.Signers[ci.Signer-1].PubRef {
+							r.Note("moments", "claim-names-second-key-blob")
+						}
+					}
+					if x.Signer != wantSigner {
+						bad = append(bad, fmt.Sprintf("Signer=%s want %s", x.Signer, wantSigner))
 					}
 					if len(bad) > 0 {
 						r.Violation("append-claims-content/"+p.name, fmt.Sprintf("%s: AppendClaims(pn %s, signer %q) returns claim %s with %s", wid, short(pn), sg.id, short(x.BlobRef), strings.Join(bad, "; ")),
